@@ -13,13 +13,17 @@ REDUCERS = ["count", "count_nonzero", "sum", "prod", "any", "all", "min", "max",
 OPCODE = {"at": 0, "range": 1, "field": 2, "fields": 3, "carry": 4, "num": 5, "flatten": 6, "flatten_offsets": 7,
           "localindex": 8, "reduce": 9, "sort": 10, "argsort": 11, "combinations": 12, "rpad": 13, "rpad_and_clip": 14,
           "fillna": 15, "merge": 16, "merge_as_union": 17, "simplify": 18, "deep_copy": 19, "numbers_to_type": 20,
-          "unique": 21, "shallow_copy": 23, "getitem_nothing": 24, "range_nowrap": 28, "mergemany": 29, "with_identities": 30}
+          "unique": 21, "shallow_copy": 23, "getitem_nothing": 24, "range_nowrap": 28, "mergemany": 29, "with_identities": 30, "helper": 31}
 TYPES = ["bool", "int8", "int32", "int64", "uint8", "uint64", "float32", "float64"]
 
 # kinds of op, for swarm selection
 # (Content::unique is not exposed to Python and not part of the user-facing operation set: not generated)
 KINDS = ["at", "range", "field", "slice", "carry", "num", "flatten", "localindex", "reduce", "sort", "combinations", "rpad",
-         "fillna", "merge", "simplify", "copy", "totype"]
+         "fillna", "merge", "simplify", "copy", "totype", "helper"]
+# the layout helpers of particular node classes that the Python layer calls (ak.to_regular / from_regular, broadcasting,
+# mask conversions); a node of another class answers with an ordinary error
+HELPERS = ["toRegularArray", "toListOffsetArray64", "broadcast_tooffsets64", "project", "bytemask", "to_other_option",
+           "contiguous_or_astuple", "compact_offsets64"]
 
 
 def int64_spec(vals):
@@ -187,6 +191,18 @@ def gen_op(r, info, nslots, enabled=None):
         return {"op": "mergemany", "other": other, "more": [r.randrange(nslots) for _ in range(r.choice([0, 1, 2]))]}
     if k == "simplify":
         return {"op": "simplify"}
+    if k == "helper":
+        what = r.choice(HELPERS)
+        fitting = {"listoffset": HELPERS[0:3] + HELPERS[7:8], "list": HELPERS[0:3] + HELPERS[7:8],
+                   "regular": HELPERS[0:3] + HELPERS[7:8], "indexed": HELPERS[3:5], "bytemasked": HELPERS[3:6],
+                   "bitmasked": HELPERS[3:6], "unmasked": HELPERS[3:6], "numpy": [HELPERS[0], HELPERS[6]],
+                   "record": [HELPERS[6]]}.get(info.get("top"))
+        if fitting and r.random() < 0.8:
+            what = r.choice(fitting)       # mostly a helper the operand's node class has
+        op = {"op": "helper", "what": what, "flag": r.random() < 0.5}
+        if what == "broadcast_tooffsets64":
+            op["other"] = r.randrange(nslots)
+        return op
     if k == "copy":
         return {"op": r.choice(["deep_copy", "shallow_copy", "getitem_nothing", "with_identities"]),
                 "flags": [r.random() < 0.5 for _ in range(3)]}
@@ -325,6 +341,9 @@ def apply(node, op, a, slot_handle, tmp, before=None):
         return node.op(23, a)
     if k == "with_identities":
         return node.op(30, a)
+    if k == "helper":
+        return node.op(31, a, slot_handle(op["other"]) if "other" in op else 0,
+                       iargs=[HELPERS.index(op["what"]), 1 if op["flag"] else 0])
     if k == "getitem_nothing":
         return node.op(24, a)
     if k == "numbers_to_type":
@@ -340,4 +359,6 @@ def op_class(op):
         return "slice:" + "+".join(i["k"] for i in op["items"])
     if k == "reduce":
         return "reduce:" + REDUCERS[op["reducer"]]
+    if k == "helper":
+        return "helper:" + op["what"]
     return k
